@@ -154,8 +154,9 @@ def ballot_data(ctx):
         if i == idx:
             if defect == "no-ranking":
                 b = Ballot(scores={"A": 1}, weight=ws[i])
-            elif defect == "tied":
-                b = Ballot(ranking=C.to_ranking(C.R("A>BC")), weight=ws[i])
+            elif defect.startswith("tied"):
+                shape = {"tied": "A>BC", "tied-first": "AB>C", "tied-all": "ABC", "tied-middle": "A>BC>D"}[defect]
+                b = Ballot(ranking=C.to_ranking(C.R(shape)), weight=ws[i])
             elif defect == "no-scores":
                 b = Ballot(ranking=C.to_ranking(C.R("A>B")), weight=ws[i])
             else:
@@ -390,7 +391,8 @@ def tasks(tier, seed):
     for rule in ("GeneralRating", "Rating", "Limited"):
         for m in (1, 2):
             out.append({"harness": "c20.rating_params", "params": {"rule": rule, "m": m}, "sig_keys": ["rule"], "name": f"rating params {rule} m={m}"})
-    combos = [("STV", "no-ranking", o), ("STV", "tied", o), ("IRV", "tied", {"quota": "droop", "tiebreak": "random"}),
+    combos = [("STV", "no-ranking", o), ("STV", "tied", o), ("STV", "tied-first", o), ("STV", "tied-all", o), ("STV", "tied-middle", o), ("IRV", "tied-first", {"quota": "droop", "tiebreak": "random"}),
+              ("SequentialRCV", "tied-middle", {"quota": "droop", "simultaneous": True, "tiebreak": "random"}), ("IRV", "tied", {"quota": "droop", "tiebreak": "random"}),
               ("SequentialRCV", "tied", {"quota": "droop", "simultaneous": True, "tiebreak": "random"}), ("Plurality", "no-ranking", {"tiebreak": "random"}),
               ("Borda", "no-ranking", {"tiebreak": "random"}), ("Alaska", "no-ranking", dict(o, m_1=2)), ("TopTwo", "no-ranking", {"tiebreak": "random"}),
               ("CondoBorda", "no-ranking", {}), ("DominatingSets", "no-ranking", {}), ("RandomDictator", "no-ranking", {}),
